@@ -5,7 +5,8 @@
    with the C01 models of pycaption's own readers. *)
 From Coq Require Import List ZArith QArith Bool.
 From PV Require Import lib.Sx lib.Str lib.Result.
-From PV Require Import model.TimeRead spec.SpecTime model.Chain spec.SpecChain proofs.ChainFacts proofs.ChainDocFacts proofs.ChainSrtDocFacts.
+From PV Require Import model.TimeRead spec.SpecTime model.Chain spec.SpecChain proofs.ChainFacts proofs.ChainDocFacts proofs.ChainSrtDocFacts proofs.ChainVttDocFacts.
+From PV Require model.TimeWrite model.TextWrite model.TextNodes.
 Import ListNotations.
 Open Scope Z_scope.
 
@@ -198,3 +199,85 @@ Example C08_ex_chain_doc_text :
   run_doc [FSrt; FMdvd; FSrt] cs
   = Ok [(1000000, 2480000, [Str.lit "hello"; Str.lit "a b"]); (3600000000, 3600040000, [Str.lit "42"])].
 Proof. vm_compute. repeat split; reflexivity. Qed.
+
+(* ---- wave 6: WebVTT at document level, and chains over all three line formats ---------------------------------------
+   vtt_write_doc prints header, timing lines and the text lines through the writer's escaping (TextWrite.vtt_encode);
+   vtt_read_doc = the C01 model of WebVTTReader's line loop and, on every text line, the reader's decoding
+   (TextRead.vtt_decode: strip, voice / tag substitution, entity chain).  Text domain: clean lines without & < >
+   (on these the escaping and the decoding are proved to be the identity); other texts: correspondence only. *)
+Theorem C08_vtt_roundtrip_string : forall cs,
+  dom_u 1000 0 (times_of_caps cs) -> vtt_text_dom cs = true ->
+  vtt_read_doc (vtt_write_doc cs) = read_result (floor_caps 1000 cs).
+Proof. exact vtt_roundtrip_string. Qed.
+Print Assumptions C08_vtt_roundtrip_string.
+
+Theorem C08_chain_doc_text_three_formats : forall chain cs lo, forallb line_fmt3 chain = true -> cs <> [] -> 0 <= lo ->
+  dom_u 40000 lo (times_of_caps cs) -> text_dom cs = true -> srt_text_dom cs = true -> vtt_text_dom cs = true ->
+  exists out, run_doc chain cs = Ok out /\ times_of_caps out = run chain (times_of_caps cs) /\ map snd out = map snd cs.
+Proof. exact run_doc_text3. Qed.
+Print Assumptions C08_chain_doc_text_three_formats.
+
+Example C08_ex_vtt_string :
+  vtt_write_doc [(1000999, 2500000, [Str.lit "hello"; Str.lit "a b"]); (3600000000, 3600040000, [Str.lit "42"])]
+  = Str.lit "WEBVTT
+
+00:01.000 --> 00:02.500
+hello
+a b
+
+01:00:00.000 --> 01:00:00.040
+42
+".
+Proof. vm_compute. reflexivity. Qed.
+Example C08_ex_chain_three_formats :
+  let cs := [(1000999, 2500000, [Str.lit "hello"; Str.lit "a b"]); (3600000000, 3600040000, [Str.lit "42"])] in
+  forallb line_fmt3 [FVtt; FMdvd; FSrt; FVtt] = true /\ text_dom cs = true /\ srt_text_dom cs = true /\ vtt_text_dom cs = true /\
+  run_doc [FVtt; FMdvd; FSrt; FVtt] cs
+  = Ok [(1000000, 2480000, [Str.lit "hello"; Str.lit "a b"]); (3600000000, 3600040000, [Str.lit "42"])].
+Proof. vm_compute. repeat split; reflexivity. Qed.
+(* outside the text domain the escaping is at work and still undone by the reader's decoding *)
+Example C08_ex_vtt_escaping :
+  vtt_read_doc (vtt_write_doc [(1000000, 2000000, [Str.lit "R&D <x> a --> b"])])
+  = Ok [(1000000, 2000000, [Str.lit "R&D <x> a --> b"])].
+Proof. vm_compute. reflexivity. Qed.
+
+(* ---- machine-checked witnesses of the recorded known findings, where the models exhibit them ---------------------- *)
+(* C08-multi-language-srt-text-growth: marker, counter, timing line and text of the next language become caption text *)
+Example C08_multi_language_srt_text_growth_refuted :
+  srt_read (srt_write_set [[(1000000, 2000000, [Str.lit "a"])]; [(1500000, 2500000, [Str.lit "b"])]])
+  = Ok [(1000000, 2000000, [Str.lit "a"; Str.lit "MULTI-LANGUAGE SRT"; Str.lit "1";
+                            Str.lit "00:00:01,500 --> 00:00:02,500"; Str.lit "b"])].
+Proof. vm_compute. reflexivity. Qed.
+(* C08-multi-language-mdvd-appended: one list with the cues of both languages *)
+Example C08_multi_language_mdvd_appended_refuted :
+  mdvd_read (mdvd_write_set [[(1000000, 2000000, [Str.lit "a"])]; [(1500000, 2500000, [Str.lit "b"])]])
+  = Ok [(1000000, 2000000, [Str.lit "a"]); (1480000, 2480000, [Str.lit "b"])].
+Proof. vm_compute. reflexivity. Qed.
+(* C08-subresolution-cues-merged-by-srt: two cues inside one millisecond arrive as one after vtt -> srt *)
+Example C08_subresolution_merge_refuted :
+  run_model [FVtt; FSrt] [(1000100, 1000400); (1000500, 1000900); (1005000, 1009000)]
+  = Ok [(1000000, 1000000); (1005000, 1009000)].
+Proof. vm_compute. reflexivity. Qed.
+(* C08-sami-submillisecond-cue-end: the cue ends at the next sync *)
+Example C08_sami_submillisecond_end_refuted :
+  run_model [FSami] [(1000, 1400); (3000, 4000)] = Ok [(1000, 3000); (3000, 4003000)].
+Proof. vm_compute. reflexivity. Qed.
+(* C08-sami-zero-length-cue-end: the first pass is right, the SECOND pass moves a non-final end *)
+Example C08_sami_zero_length_second_pass_refuted :
+  run_model [FSami; FMdvd] [(100000, 110000); (200000, 300000)] = Ok [(80000, 80000); (200000, 4200000)] /\
+  run_model [FSami; FMdvd] [(80000, 80000); (200000, 4200000)] = Ok [(80000, 200000); (200000, 4200000)].
+Proof. vm_compute. split; reflexivity. Qed.
+(* C08-blank-line-in-text-node: the empty line ends the cue, the rest of the text is lost *)
+Example C08_blank_line_in_text_node_refuted :
+  vtt_read_doc (vtt_write_doc [(1000000, 2000000, [Str.lit "a" ++ [10; 10] ++ Str.lit "b"]); (3000000, 4000000, [Str.lit "w1"])])
+  = Ok [(1000000, 2000000, [Str.lit "a"]); (3000000, 4000000, [Str.lit "w1"])].
+Proof. vm_compute. reflexivity. Qed.
+(* C08-vtt-layout-split: the WebVTT writer model (C02) prints one cue per layout group *)
+Example C08_vtt_layout_split_refuted :
+  let c := Base.mkCap (inject_Z 1000000) (inject_Z 2000000) [1] in
+  length (TimeWrite.vtt_tokens [(c, [TimeWrite.VText (Some 1); TimeWrite.VBreak; TimeWrite.VText (Some 2)])]) = 2%nat.
+Proof. vm_compute. reflexivity. Qed.
+(* C08-sami-blank-at-node-boundary: the SAMI payload of 'Hel' + 'lo' (writer model of C03) *)
+Example C08_sami_blank_at_node_boundary_refuted :
+  TextWrite.sami_payload [TextNodes.NText (Str.lit "Hel"); TextNodes.NText (Str.lit "lo")] = Str.lit "Hel lo".
+Proof. vm_compute. reflexivity. Qed.
